@@ -23,11 +23,13 @@ PROP = dict(
               "{31,32,51,101,200,201,401} x tw {0.005,0.01,0.05,0.1}: response on the 0.0005 grid over [max(2tw,6/M), 0.5-same], "
               "process() on 16 tones x 2 framings (3M+64 samples); Tuner: fs {8,9,100,8000,100000} x up to 29 values of f in "
               "[-fs/2,fs/2] (0, +-1, +-3, +-fs/4, +-fs/2, +-0.5, +-1.25, +-2.5, +-(fs-1)/2, +-(fs/2-1), +-440.3, +-(fs/2-0.1), +-1/3, +-fs/3, "
-              "+-0.001) x 3 framings (one call / frames 1,2,3,5,7,11,64,1000 cyclic / frames of fs samples), every sample of "
-              "ceil(3.5 fs) (fs <= 100) or 2.5 fs samples",
+              "+-0.001) x 7 framings: one call / frames 1,2,3,5,7,11,64,1000 cyclic / frames of fs samples over ceil(3.5 fs) (fs <= 100) "
+              "or 2.5 fs samples, and - for every fs - the cyclic frame patterns [2fs+3,1,fs-1,3fs+1,5], [fs+1], [3fs], [1,4fs+2,7] "
+              "(frames longer than fs and than 2 fs followed by further frames) over 9 fs + 17 samples; every sample compared",
         thorough="hilbert(x): every n in 3..2048 + {4095,4096,6000}, every impulse for n <= 128; hilbert(x,n') as quick; HilbertFilter: "
                  "every flen in 31..401 x tw {0.005,0.01,0.02,0.05,0.1} (1855 designs), response grid and 16 tones x 2 framings each; "
-                 "Tuner: fs {8,9,10,11,100,101,8000,44100,48000,100000}, same f set and framings, every sample of ceil(3.5 fs)"),
+                 "Tuner: fs {8,9,10,11,100,101,8000,44100,48000,100000}, same f set and 7 framings, every sample of ceil(3.5 fs) "
+                 "(framings 0-2) / 9 fs + 17 (long-frame framings 3-6)"),
     deadline=dict(quick=150, thorough=1500),
     assumptions=COMMON_ASSUME + [
         "tolerances: real(hilbert(x)) - x and hilbert(x,n') - hilbert(pad(x)) are measured as max element error against tol(n)*||x||_2, "
@@ -38,6 +40,7 @@ PROP = dict(
         "HilbertFilter: M is the actual impz() length (even requests are rounded up by the library), group delay D = M/2 (integer "
         "division), the 1e-3 quadrature bound is applied once the FIR is filled (k >= M-1); the real part is compared by value from k = 0",
         "Tuner: f in [-fs/2, fs/2] (closed, real-valued bound) is admissible; tolerance 1e-9 relative to |x[k]|; "
-        "frames of length 0 are not generated",
+        "frames of length 0 are not generated; 'any number of calls and samples' is explored through 7 fixed frame patterns "
+        "(frames of 1 sample up to 4 fs + 2 samples), not through all compositions of the stream",
     ],
 )
